@@ -6,6 +6,7 @@ CONSTANTS
   SkipSet = {}
   HdrSet = {}
   RefPolicy = "first"
+  FillOnly = FALSE
   BulkN = 5
   RoleLimit = 250
   ExportHist = TRUE
